@@ -257,3 +257,106 @@ def _l_var(ssq, sm, n):
 def _l_sq(x, y):
     """x == y  =>  x*x == y*y (congruence made explicit for the nonlinear core)."""
     return [x == y], x * x == y * y
+
+
+# ----------------------------------------------------------------------------- scorer interface (uninterpreted score functions)
+# SCk(tok, cut entries..., j): value in column j of the row that a scorer fitted with token `tok` returns for that cut.
+_SC = {
+    2: z3.Function("SC2", _I, _I, _I, _I, _R),
+    3: z3.Function("SC3", _I, _I, _I, _I, _I, _R),
+    4: z3.Function("SC4", _I, _I, _I, _I, _I, _I, _R),
+}
+# AGGk(tok, cut entries...) = sum over columns of SCk  (what np.sum(scores, axis=1) returns)
+_AGG = {
+    2: z3.Function("AGG2", _I, _I, _I, _R),
+    3: z3.Function("AGG3", _I, _I, _I, _I, _R),
+    4: z3.Function("AGG4", _I, _I, _I, _I, _I, _R),
+}
+for _k in (2, 3, 4):
+    SPEC_FUNCS[f"SC{_k}"] = (lambda k: (lambda eng, st, *a: _SC[k](*[to_z3(x) for x in a])))(_k)
+    SPEC_FUNCS[f"AGG{_k}"] = (lambda k: (lambda eng, st, *a: _AGG[k](*[to_z3(x) for x in a])))(_k)
+
+
+# ----------------------------------------------------------------------------- optimal partitioning (PELT, C02)
+# PF(tok, m, beta, u): optimal penalised cost of the prefix of length u (u == 0: -beta; defined for u >= m),
+# PA(tok, m, beta, u): an optimal last segment start for u >= 2m.  C(s,e) = AGG2(tok, s, e).
+_PF = z3.Function("PF", _I, _I, _R, _I, _R)
+_PA = z3.Function("PA", _I, _I, _R, _I, _I)
+SPEC_FUNCS["PF"] = lambda eng, st, tok, m, beta, u: _PF(to_z3(tok), to_z3(m), to_z3(to_real(beta)), to_z3(u))
+SPEC_FUNCS["PA"] = lambda eng, st, tok, m, beta, u: _PA(to_z3(tok), to_z3(m), to_z3(to_real(beta)), to_z3(u))
+
+
+def _adm(s, u, m):
+    return z3.Or(s == 0, z3.And(m <= s, s <= u - m))
+
+
+@spec("Adm")
+def _adm_spec(eng, st, s, u, m):
+    return _adm(to_z3(s), to_z3(u), to_z3(m))
+
+
+@spec("PELT_THEORY")
+def _pelt_theory(eng, st, tok, m, beta, n):
+    """Bellman characterisation of PF (the definition of the optimal-partitioning value; L_bellman relates it to the
+    minimum over all admissible segmentations). Triggers: B2 on the cost term, B3 only on an explicit PA(u) term."""
+    allt = isinstance(tok, str) and tok == "all"
+    tok = z3.Int("tok!pt") if allt else to_z3(tok)
+    tv = [tok] if allt else []
+    m, n = to_z3(m), to_z3(n)
+    beta = to_z3(to_real(beta))
+    C = _AGG[2]
+    F = lambda u: _PF(tok, m, beta, u)
+    A = lambda u: _PA(tok, m, beta, u)
+    u, s = z3.Ints("u!pt s!pt")
+    eng.note_assumption("definition of the spec function PF (optimal partitioning value) by its Bellman equations: PF(0)=-beta, "
+                        "PF(u)=C(0,u) for m<=u<2m, PF(u)=min over admissible s of PF(s)+C(s,u)+beta for u>=2m (PA(u) attains it)")
+    eng.used_lemmas.add("L_bellman")
+    return z3.And(
+        z3.ForAll(tv, F(0) == -beta, patterns=[F(0)]) if allt else F(0) == -beta,
+        z3.ForAll(tv + [u], z3.Implies(z3.And(m <= u, u < 2 * m, u <= n), F(u) == C(tok, 0, u)), patterns=[F(u)]),
+        z3.ForAll(tv + [u, s], z3.Implies(z3.And(2 * m <= u, u <= n, _adm(s, u, m)), F(u) <= F(s) + C(tok, s, u) + beta), patterns=[C(tok, s, u)]),
+        z3.ForAll(tv + [u], z3.Implies(z3.And(2 * m <= u, u <= n), z3.And(_adm(A(u), u, m), F(u) == F(A(u)) + C(tok, A(u), u) + beta)), patterns=[A(u)]),
+    )
+
+
+@spec("SPLIT_INEQ")
+def _split_ineq(eng, st, tok, m, kappa, n):
+    """C(a,b)+C(b,c)+kappa <= C(a,c) for segments of admissible length (the side condition of C02)."""
+    allt = isinstance(tok, str) and tok == "all"
+    tok = z3.Int("tok!si") if allt else to_z3(tok)
+    m, n = to_z3(m), to_z3(n)
+    kappa = to_z3(to_real(kappa))
+    C = _AGG[2]
+    a, b, c = z3.Ints("a!si b!si c!si")
+    return z3.ForAll(([tok] if allt else []) + [a, b, c], z3.Implies(z3.And(0 <= a, a + m <= b, b + m <= c, c <= n), C(tok, a, b) + C(tok, b, c) + kappa <= C(tok, a, c)),
+                     patterns=[z3.MultiPattern(C(tok, a, b), C(tok, b, c))])
+
+
+def _bellman_proof():
+    """L_bellman: for every admissible segmentation b(0)=0<b(1)<...<b(K)=t (gaps >= m), PF(t) <= SegCost.
+    Induction on the number of segments K over generic symbols: Cost(k) = sum_{i<k} C(b(i),b(i+1)) + beta*(k-1)."""
+    tok, m, n, K, k = z3.Ints("tok!B m!B n!B K!B k!B")
+    beta = z3.Real("beta!B")
+    b = z3.Function("b!B", _I, _I)
+    SC = z3.Function("SegCost!B", _I, _R)     # SegCost(k): cost of the first k segments incl. (k-1) penalties
+    C = _AGG[2]
+    F = lambda u: _PF(tok, m, beta, u)
+    u, s, i = z3.Ints("u!B s!B i!B")
+    theory = [
+        m >= 1, F(0) == -beta,
+        z3.ForAll([u], z3.Implies(z3.And(m <= u, u < 2 * m, u <= n), F(u) == C(tok, 0, u)), patterns=[F(u)]),
+        z3.ForAll([u, s], z3.Implies(z3.And(2 * m <= u, u <= n, _adm(s, u, m)), F(u) <= F(s) + C(tok, s, u) + beta), patterns=[C(tok, s, u)]),
+    ]
+    seg = [b(0) == 0, z3.ForAll([i], z3.Implies(z3.And(0 <= i, i < K), z3.And(b(i) + m <= b(i + 1), b(i + 1) <= n)), patterns=[b(i + 1)]),
+           SC(1) == C(tok, 0, b(1)),
+           z3.ForAll([i], z3.Implies(z3.And(1 <= i, i < K), SC(i + 1) == SC(i) + C(tok, b(i), b(i + 1)) + beta), patterns=[SC(i + 1)])]
+    # base: one segment [0, b(1))
+    base = (".base", theory + seg + [K >= 1], F(b(1)) <= SC(1))
+    # step: F(b(k)) <= SC(k)  =>  F(b(k+1)) <= SC(k+1)   for 1 <= k < K
+    step = (".step", theory + seg + [1 <= k, k < K, F(b(k)) <= SC(k), b(k) >= m, b(k) + m <= b(k + 1), b(k + 1) <= n], F(b(k + 1)) <= SC(k + 1))
+    # auxiliary: b(k) >= m for k >= 1 (monotone boundaries)
+    aux = (".bounds", seg + [m >= 1, 1 <= k, k < K, b(k) >= m], b(k + 1) >= m)
+    return [base, step, aux]
+
+
+LEMMA_PROOFS["L_bellman"] = _bellman_proof
